@@ -49,8 +49,12 @@ def succ (g : Graph) (n : Name) : List Name :=
   (g.filter (·.name == n)).flatMap fun nd => nd.deps.map (·.atom)
 
 /-- `indices.keys()`: every type name and every dependency atom -/
+def dedup : List Name → List Name
+  | [] => []
+  | a :: t => if t.contains a then dedup t else a :: dedup t
+
 def indices (g : Graph) : List Name :=
-  (g.flatMap fun nd => nd.name :: nd.deps.map (·.atom)).eraseDups
+  dedup (g.flatMap fun nd => nd.name :: nd.deps.map (·.atom))
 
 abbrev Flags := Bool × Bool                 -- (in_request, in_response)
 abbrev Usage := List (Name × Flags)          -- BTreeMap<EnumToken, UsageFlags>
